@@ -19,16 +19,26 @@ import time
 import z3
 
 from .abstract import unsat_abstract
+from .strlemmas import saturate
 
-Z3_QUICK_S = float(os.environ.get("PYVC_Z3_QUICK_S", "8"))
+Z3_QUICK_S = float(os.environ.get("PYVC_Z3_QUICK_S", "15"))
 CVC5_S = float(os.environ.get("PYVC_CVC5_S", "20"))
 Z3_FULL_S = float(os.environ.get("PYVC_Z3_FULL_S", "25"))
+MAX_UNKNOWN = int(os.environ.get("PYVC_MAX_UNKNOWN", "2"))
+SAT_GRACE_S = float(os.environ.get("PYVC_SAT_GRACE_S", "90"))
 TMP = os.environ.get("PYVC_TMP", "/var/tmp")
 
 
-def vc_smt2(vc):
+def _saturated(pc):
+    try:
+        return list(pc) + saturate(pc)
+    except z3.Z3Exception:
+        return list(pc)
+
+
+def vc_smt2(vc, pc=None):
     s = z3.Solver()
-    for c in vc.pc:
+    for c in (pc if pc is not None else vc.pc):
         s.add(c)
     s.add(z3.Not(vc.goal))
     return s.to_smt2()
@@ -184,27 +194,70 @@ def _first(out):
 THOROUGH = os.environ.get("VERIF_TIER") == "thorough" or os.environ.get("PYVC_THOROUGH") == "1"
 
 
+def _race(cmds, timeout):
+    """Run several solver command lines on their own input files at once; the first definitive answer
+    (sat/unsat) wins and the others are killed.  cmds: [(backend, argv, text, limit_s)]."""
+    procs = []
+    t0 = time.time()
+    for be, argv, text, lim in cmds:
+        fh = tempfile.NamedTemporaryFile("w", suffix=".smt2", delete=False, dir=TMP)
+        fh.write(text)
+        fh.close()
+        out = tempfile.NamedTemporaryFile("w+", suffix=".out", delete=False, dir=TMP)
+        p = subprocess.Popen(argv + [fh.name], stdout=out, stderr=subprocess.DEVNULL)
+        procs.append([be, p, fh.name, out, lim])
+    result = None
+    try:
+        live = list(procs)
+        while live and result is None:
+            for rec in list(live):
+                be, p, path, out, lim = rec
+                rc = p.poll()
+                if rc is None and time.time() - t0 > lim + 2:
+                    p.kill()
+                    p.wait()
+                    rc = -9
+                if rc is not None:
+                    live.remove(rec)
+                    out.seek(0)
+                    txt = out.read()
+                    f = _first(txt)
+                    if f in ("sat", "unsat"):
+                        result = (f, be, txt)
+                        break
+            if result is None and live:
+                time.sleep(0.01)
+    finally:
+        for be, p, path, out, lim in procs:
+            if p.poll() is None:
+                p.kill()
+                p.wait()
+            out.close()
+            for fpath in (path, out.name):
+                try:
+                    os.unlink(fpath)
+                except OSError:
+                    pass
+        if os.environ.get("PYVC_TRACE"):
+            import sys
+            print("[solve] race %s %.1fs" % (result[:2] if result else None, time.time() - t0), file=sys.stderr)
+    return result
+
+
 def cli_check(text, budget=1.0):
     """Run the external back ends on SMT-LIB text; returns (status, backend, model).
-    Order: cvc5 (fast and stable on the string/regex fragment), z3 5.1, then (thorough tier)
-    z3 4.8 and z3 5.1 with another seed."""
+    cvc5 (fast and stable on the string/regex fragment) and z3 5.1 race each other; the thorough tier then
+    adds z3 4.8 and z3 5.1 with another seed."""
     body = text.replace("(set-info :status unknown)", "")
     z3text = body + "\n(get-model)\n"
     cv = "(set-logic ALL)\n(set-option :produce-models true)\n" + body + "\n(get-model)\n"
-    t = CVC5_S * budget
-    out = _run(["/usr/bin/cvc5", "--strings-exp", "--tlimit=%d" % int(t * 1000)], cv, t)
-    f = _first(out)
-    if f == "unsat":
-        return "unsat", "cvc5", None
-    if f == "sat":
-        return "sat", "cvc5", parse_model(out)
-    t = Z3_QUICK_S * budget
-    out = _run(["z3-new", "-T:%d" % max(1, int(t))], z3text, t)
-    f = _first(out)
-    if f == "unsat":
-        return "unsat", "z3-cli-5.1", None
-    if f == "sat":
-        return "sat", "z3-cli-5.1", parse_model(out)
+    tc = CVC5_S * budget
+    tz = Z3_QUICK_S * budget
+    r = _race([("cvc5", ["/usr/bin/cvc5", "--strings-exp", "--tlimit=%d" % int(tc * 1000)], cv, tc),
+               ("z3-cli-5.1", ["z3-new", "-T:%d" % max(1, int(tz))], z3text, tz)], max(tc, tz))
+    if r is not None:
+        f, be, out = r
+        return f, be, (parse_model(out) if f == "sat" else None)
     if not THOROUGH:
         return "unknown", "cvc5+z3", None
     out = _run(["/usr/bin/z3", "-T:%d" % int(Z3_FULL_S), "smt.random_seed=11"], z3text, Z3_FULL_S)
@@ -236,7 +289,17 @@ def discharge_one(vc):
             return
     except (ValueError, z3.Z3Exception):
         pass
-    text = vc_smt2(vc)
+    # valid consequences of the path condition (substring order is transitive ...): sound to add, and they let
+    # the abstraction or the string solvers close goals such as prefixof(head, selector)
+    pc2 = _saturated(vc.pc)
+    if len(pc2) > len(vc.pc):
+        try:
+            if unsat_abstract(pc2, vc.goal):
+                vc.status, vc.backend, vc.time = "unsat", "z3-abstract", time.time() - t0
+                return
+        except (ValueError, z3.Z3Exception):
+            pass
+    text = vc_smt2(vc, pc2)
     if os.environ.get("PYVC_DUMP"):
         _dump_n[0] += 1
         open(os.path.join(os.environ["PYVC_DUMP"], "vc%d_%04d.smt2" % (os.getpid(), _dump_n[0])), "w").write(text)
@@ -300,6 +363,22 @@ def discharge(vcs, jobs=None, inline_heavy=True, stop_at_sat=False):
                 vc.status, vc.backend, vc.time = "unsat", be, dt
         else:
             rest.extend(g)
+    # one counter-model per obligation is enough to report it; the remaining paths of a refuted obligation
+    # are not solved (a refuting change would otherwise cost one slow `sat` per path), and once something is
+    # refuted the rest of the function gets a bounded amount of further solver time
+    refuted = set()
+    unknowns = {}
+    t_first = None
     for vc in rest:
+        if vc.name in refuted or unknowns.get(vc.name, 0) >= MAX_UNKNOWN or (t_first is not None and time.time() - t_first > SAT_GRACE_S):
+            vc.status, vc.backend, vc.time = "skipped", "none", 0.0
+            continue
         discharge_one(vc)
+        if vc.status == "sat":
+            refuted.add(vc.name)
+            if t_first is None:
+                t_first = time.time()
+        elif vc.status != "unsat":
+            # an obligation left open on several paths is undecided whatever the other paths say
+            unknowns[vc.name] = unknowns.get(vc.name, 0) + 1
     return vcs
